@@ -81,10 +81,16 @@ static int compression_read(struct conn_interface *intf, void *buff, size_t len)
     }
     dbuff = comp->decompression.buffer;
     dlen = STROPHE_COMPRESSION_BUFFER_SIZE;
-    int ret = comp->next.read(intf, dbuff, dlen);
-    if (ret > 0) {
-        return _conn_decompress(comp, ret, buff, len);
-    }
+    int ret;
+    /* compressed input that yields no plain text yet (e.g. the rest of a flush
+     * marker) is not the end of the stream: read on */
+    do {
+        ret = comp->next.read(intf, dbuff, dlen);
+        if (ret <= 0)
+            return ret;
+        ret = _conn_decompress(comp, ret, buff, len);
+    } while (ret == 0 && conn->state == XMPP_STATE_CONNECTED &&
+             comp->decompression.stream.next_in == NULL);
     return ret;
 }
 
